@@ -100,6 +100,8 @@ pub struct SessionPlan {
     pub threads: Vec<ThreadPlan>,
     pub owner_ops: Vec<OwnerOp>,
     pub close: CloseKind,
+    /// false: the owner closes the connection while workers are still running, then joins them
+    pub join_before_close: bool,
 }
 
 pub struct SessionResult {
@@ -222,11 +224,12 @@ fn owner_main(plan: SessionPlan, stream: crate::stream::SimStream, hist: Hist) {
             }
         }
     }
-    if !joined {
+    if !joined && plan.join_before_close {
         simrt::set_note("owner: joining workers".into());
         for w in workers.drain(..) {
             let _ = w.join();
         }
+        joined = true;
     }
     for k in kept.iter_mut() {
         if let Some(ch) = k.take() {
@@ -251,6 +254,12 @@ fn owner_main(plan: SessionPlan, stream: crate::stream::SimStream, hist: Hist) {
     if let Some(rx) = &blocked_rx {
         let (notes, disconnected) = read_blocked(rx);
         hist.lock().unwrap().conn.push(ConnRec::ReadBlocked { notes, disconnected });
+    }
+    if !joined {
+        simrt::set_note("owner: joining workers after close".into());
+        for w in workers.drain(..) {
+            let _ = w.join();
+        }
     }
     simrt::set_note("owner: done".into());
 }
